@@ -25,8 +25,8 @@ func zzDecimalsChoice(name string) uint64 {
 func zzRate(name string) sdk.Dec {
 	if vrt.Thorough() {
 		// the product rate*(amount+fee) with both symbolic is beyond the solver (unknown): eight rates instead
-		return []sdk.Dec{sdk.ZeroDec(), sdk.NewDecWithPrec(1, 18), sdk.NewDecWithPrec(1, 2), sdk.NewDecWithPrec(333333333333333333, 18), sdk.NewDecWithPrec(5, 1),
-			sdk.NewDecWithPrec(7, 3), sdk.NewDecWithPrec(999, 3), sdk.NewDecFromBigIntWithPrec(new(big.Int).Sub(zzE18, big.NewInt(1)), 18)}[vrt.Choose(name, 8)]
+		return []sdk.Dec{sdk.ZeroDec(), sdk.NewDecWithPrec(1, 18), sdk.NewDecWithPrec(1, 2), sdk.NewDecWithPrec(5, 1),
+			sdk.NewDecWithPrec(7, 3), sdk.NewDecFromBigIntWithPrec(new(big.Int).Sub(zzE18, big.NewInt(1)), 18)}[vrt.Choose(name, 6)]
 	}
 	return []sdk.Dec{sdk.ZeroDec(), sdk.NewDecWithPrec(1, 2), sdk.NewDecWithPrec(5, 1), sdk.NewDecFromBigIntWithPrec(new(big.Int).Sub(zzE18, big.NewInt(1)), 18)}[vrt.Choose(name, 4)]
 }
